@@ -214,7 +214,7 @@ func runProperty(p *Prog, prop, tier string, onlyFunc string) *PropRun {
 				continue
 			}
 			if strings.Contains(o.DeclText, "opaque.") {
-				o.Axioms = lemmaAxioms(p, x)
+				o.Axioms = lemmaAxioms(p, x, o.DeclText)
 			}
 			if o.Kind == "finding" && !hasProp(o.Props, prop) {
 				continue
@@ -639,11 +639,21 @@ func seedFromEnv() int {
 
 // lemmaAxioms renders every spec lemma as a quantified axiom (triggered on the opaque
 // applications it mentions) for use in all other obligations.
-func lemmaAxioms(p *Prog, x *Exec) string {
+func lemmaAxioms(p *Prog, x *Exec, declText string) string {
 	var b strings.Builder
 	for _, lm := range p.specs.Lemmas {
 		ax, ok := lemmaFormula(p, x, lm, false)
-		if ok {
+		if !ok {
+			continue
+		}
+		usable := true
+		for _, app := range opaqueApps(ax) {
+			name := strings.Fields(strings.TrimPrefix(app, "("))[0]
+			if !strings.Contains(declText, "(declare-fun "+name+" ") {
+				usable = false
+			}
+		}
+		if usable {
 			b.WriteString("(assert " + ax + ")\n")
 		}
 	}
